@@ -386,7 +386,31 @@ pub fn run(head: &str, steps: &str) -> Result<String, String> {
     cob.with_keep_alive_interval_seconds(None).with_client_id("drv").with_rejoin_session_policy(RejoinSessionPolicy::PostSuccess);
     let connect_options = cob.build();
 
-    let handle = if kind == "tokio" {
+    // `kind=tokio-ws|threaded-ws endpoint=<hex>`: the client as the public builders make it for a websocket endpoint (port 1: nothing
+    // listens, an attempt can only fail); what is under test is what an endpoint string does to the client's event loop
+    let ws_endpoint = || -> String {
+        let h = get("endpoint").unwrap_or("").trim_start_matches('x');
+        let bytes: Vec<u8> = (0..h.len() / 2).filter_map(|i| u8::from_str_radix(&h[2 * i..2 * i + 2], 16).ok()).collect();
+        String::from_utf8_lossy(&bytes).to_string()
+    };
+    let handle = if kind == "tokio-ws" {
+        let runtime = tokio::runtime::Builder::new_multi_thread().worker_threads(2).enable_all().build().map_err(|e| e.to_string())?;
+        let mut builder = gneiss_mqtt::client::TokioClientBuilder::new(ws_endpoint().as_str(), 1);
+        builder.with_client_options(client_options).with_connect_options(connect_options)
+            .with_websocket_options(AsyncWebsocketOptions::builder().build())
+            .with_tokio_options(TokioOptions::builder(runtime.handle().clone()).build());
+        let client = builder.build().map_err(|e| format!("build: {}", e))?;
+        Handle::Tokio(client, runtime)
+    } else if kind == "threaded-ws" {
+        let mut tb = ThreadedOptions::builder();
+        tb.with_idle_service_sleep(Duration::from_millis(get("idle").and_then(|x| x.parse().ok()).unwrap_or(1)));
+        let mut builder = gneiss_mqtt::client::ThreadedClientBuilder::new(ws_endpoint().as_str(), 1);
+        builder.with_client_options(client_options).with_connect_options(connect_options)
+            .with_websocket_options(SyncWebsocketOptions::builder().build())
+            .with_threaded_options(tb.build());
+        let client = builder.build().map_err(|e| format!("build: {}", e))?;
+        Handle::Threaded(client)
+    } else if kind == "tokio" {
         let runtime = tokio::runtime::Builder::new_multi_thread().worker_threads(2).enable_all().build().map_err(|e| e.to_string())?;
         let s2 = shared.clone();
         let client = new_tokio_client(client_options, connect_options, TokioOptions::builder(runtime.handle().clone()).build(),
